@@ -13,7 +13,7 @@
 (* computes the expected response through `expect`.  Everything discrete   *)
 (* (order, presence, counts, literals, masks, skips) is fixed here.        *)
 (***************************************************************************)
-EXTENDS Naturals, Integers, Sequences, FiniteSets
+EXTENDS Naturals, Integers, Sequences, FiniteSets, SequencesExt
 
 \* --- items ---------------------------------------------------------------
 F(f, ty)        == [k |-> "f", f |-> f, ty |-> ty]                 \* drawn field
@@ -36,8 +36,8 @@ Eo(p)           == [p |-> p, tr |-> "map"]                         \* empty map 
 Ek(p, key, src) == [p |-> p, tr |-> "entry", key |-> key, src |-> src]   \* map entry keyed by a drawn field
 
 \* --- helpers -----------------------------------------------------------------
-RECURSIVE Cat(_)
-Cat(ss) == IF ss = <<>> THEN <<>> ELSE Head(ss) \o Cat(Tail(ss))
+\* concatenation of a sequence of sequences (SequencesExt, evaluated by a Java module override)
+Cat(ss) == FlattenSeq(ss)
 
 \* decimal digits of a small natural, as a string (used to build unique field names)
 Digit(d) == CASE d = 0 -> "0" [] d = 1 -> "1" [] d = 2 -> "2" [] d = 3 -> "3" [] d = 4 -> "4"
